@@ -26,10 +26,11 @@ def F(content, dt=0):
 
 # job-pair shapes: side -> {"files": {rel: (content, dt)}, "doc": {...} | None}; side missing = job absent there
 SHAPES = {
-    "src-only": {"src": {"files": {"f.txt": F("S"), "sub/g.txt": F("SG"), "skip.log": F("SL")}, "doc": {"a": 1}}},
+    "src-only": {"src": {"files": {"f.txt": F("S"), "sub/g.txt": F("SG"), "skip.log": F("SL"), "noskip.log": F("NS"),
+                                   "sub/unskip.dat": F("US"), "sub/skip.x": F("SX")}, "doc": {"a": 1}}},
     "dst-only": {"dst": {"files": {"keep.txt": F("D")}, "doc": {"d": 1}}},
     "identical": {"src": {"files": {"f.txt": F("same")}, "doc": {"a": 1}}, "dst": {"files": {"f.txt": F("same")}, "doc": {"a": 1}}},
-    "src-new-files": {"src": {"files": {"new.txt": F("N"), "sd/x.txt": F("NX"), "skip.log": F("SL")}, "doc": None},
+    "src-new-files": {"src": {"files": {"new.txt": F("N"), "sd/x.txt": F("NX"), "skip.log": F("SL"), "noskip.log": F("NS")}, "doc": None},
                       "dst": {"files": {"old.txt": F("O")}, "doc": None}},
     "dst-extra": {"src": {"files": {"f.txt": F("same")}, "doc": {"a": 1}},
                   "dst": {"files": {"f.txt": F("same"), "keep.txt": F("D"), "kd/k.txt": F("DK")}, "doc": {"a": 1, "donly": [1, 2]}}},
@@ -48,8 +49,8 @@ SHAPES = {
                            "dst": {"files": {"skip.log": F("BB", 0), "ok.txt": F("same")}, "doc": None}},
     "doc-disjoint": {"src": {"files": {}, "doc": {"a": 1}}, "dst": {"files": {}, "doc": {"b": 2}}},
     "doc-overlap-equal": {"src": {"files": {}, "doc": {"a": 1, "b": 2}}, "dst": {"files": {}, "doc": {"a": 1}}},
-    "doc-flat-conflict": {"src": {"files": {}, "doc": {"a": 1, "n": 5}}, "dst": {"files": {}, "doc": {"a": 2, "z": 0}}},
-    "doc-nested-conflict": {"src": {"files": {}, "doc": {"n": {"x": 1, "y": 2}, "first": 1}}, "dst": {"files": {}, "doc": {"n": {"x": 9}}}},
+    "doc-flat-conflict": {"src": {"files": {}, "doc": {"a": 1, "n": 5, "w": 1}}, "dst": {"files": {}, "doc": {"a": 2, "z": 0, "w": 2}}},
+    "doc-nested-conflict": {"src": {"files": {}, "doc": {"n": {"x": 1, "y": 2}, "first": 1, "w": 3}}, "dst": {"files": {}, "doc": {"n": {"x": 9}}}},
     "doc-deep-conflict": {"src": {"files": {}, "doc": {"p": {"q": {"r": 1, "s": 1}}}}, "dst": {"files": {}, "doc": {"p": {"q": {"r": 2}}}}},
     "doc-none-conflict": {"src": {"files": {}, "doc": {"a": 5, "n": {"x": 1}, "z": 1}},
                           "dst": {"files": {}, "doc": {"a": None, "n": {"x": None}, "z": None}}},
@@ -173,9 +174,14 @@ def call(root, ids, opts, entry):
 
     filecmp.clear_cache()
     S, D = signac.Project(os.path.join(root, "src")), signac.Project(os.path.join(root, "dst"))
-    kw = dict(strategy=make_strategy(opts["strategy"]), doc_sync=make_docsync(opts["doc_sync"]),
-              recursive=opts["recursive"],
-              exclude=None if not opts["exclude"] else ([EXCLUDE] if opts["exclude"] == "list" else EXCLUDE))
+    # arguments that have their default value are NOT passed (the defaults are part of the interface under test)
+    kw = dict(recursive=opts["recursive"])
+    if opts["strategy"] != "none":
+        kw["strategy"] = make_strategy(opts["strategy"])
+    if opts["doc_sync"] != "default":
+        kw["doc_sync"] = make_docsync(opts["doc_sync"])
+    if opts["exclude"]:
+        kw["exclude"] = [EXCLUDE] if opts["exclude"] == "list" else EXCLUDE
     for k in ("deep", "dry_run"):
         if opts.get(k):
             kw[k] = True
@@ -209,9 +215,59 @@ def shallow_same(sa, sb):
     return sa == sb
 
 
+PRIORS = ("job-default", "jobs-list-exclude", "job-bykey-declined", "projects-copy")
+
+
+def prior_call(kind):
+    """An unrelated, earlier synchronization in the same process (other projects, other options): whatever it leaves behind
+    in module- or class-level state must not influence the call under test."""
+    import signac
+    from signac import sync as ssync
+    from signac.sync import DocSync, FileSync
+
+    with scratch.fresh("syncprior") as root:
+        S, D = signac.init_project(os.path.join(root, "s")), signac.init_project(os.path.join(root, "d"))
+        for P, tag in ((S, "s"), (D, "d")):
+            for i in (0, 1):
+                j = P.open_job({"prior": i}).init()
+                j.doc.update({"a": tag, "w": tag + str(i), "only_" + tag: 1, "n": {"x": tag}})
+                with open(j.fn("c.txt"), "w") as f:
+                    f.write(tag * (3 + i))
+                with open(j.fn("skip.log"), "w") as f:
+                    f.write(tag)
+        sj, dj = S.open_job({"prior": 0}), D.open_job({"prior": 0})
+        try:
+            if kind == "job-default":
+                dj.sync(sj)
+            elif kind == "jobs-list-exclude":
+                ssync.sync_jobs(sj, dj, strategy=FileSync.always, exclude=[EXCLUDE], doc_sync=DocSync.update)
+            elif kind == "job-bykey-declined":
+                dj.sync(sj, strategy=FileSync.always, doc_sync=DocSync.ByKey(lambda k: k == "a"))
+            elif kind == "projects-copy":
+                D.sync(S, strategy=FileSync.always, doc_sync=DocSync.COPY, exclude=EXCLUDE)
+        except Exception:  # noqa  (conflicts are the expected outcome of some of these)
+            pass
+
+
+def prior_cases(tier):
+    for prior in PRIORS:
+        for name in ("doc-flat-conflict", "diff-excluded-name", "doc-nested-dst-only", "diff-size-newer"):
+            for ds in ("copy", "default", "bykey-fn", "update"):
+                for entry in ("Job.sync", "sync_jobs", "Project.sync", "sync_projects"):
+                    for ex in (False, "list"):
+                        if tier == "quick" and ex and entry in ("sync_jobs", "Project.sync"):
+                            continue
+                        o = base_opts(strategy="always", doc_sync=ds, recursive=True, exclude=ex, prior=prior)
+                        if entry in ("Job.sync", "sync_jobs"):
+                            o["job_index"] = 0
+                        yield ((name,), "none", o, entry)
+
+
 def evaluate_case(case):
     """case = (shapes tuple, pdoc, opts dict, entry). Returns (violations, outcome, n_calls)."""
     shapes, pdoc, opts, entry = case
+    if opts.get("prior"):
+        prior_call(opts["prior"])
     viol = []
     inp = {"shapes": list(shapes), "pdoc": pdoc, "opts": opts, "entry": entry}
 
@@ -560,8 +616,8 @@ def base_opts(**kw):
 
 # ------------------------------------------------------------------ universes
 BOTH = [n for n in SHAPE_NAMES if "src" in SHAPES[n] and "dst" in SHAPES[n]]
-MULTI = ["src-only", "dst-only", "src-new-files", "diff-size-newer", "doc-flat-conflict", "identical", "diff-samesize-equal",
-         "doc-nested-conflict"]
+MULTI = ["src-only", "dst-only", "src-new-files", "diff-size-newer", "doc-flat-conflict", "doc-nested-conflict", "identical",
+         "diff-samesize-equal"]
 
 
 def base_cases(tier):
@@ -575,7 +631,7 @@ def base_cases(tier):
         yield ((name,), "none", base_opts(strategy=st, doc_sync=ds, recursive=rec, exclude=ex, job_index=0), entry)
     for pd_, ds, cs, name in itertools.product(PDOCS, DOCSYNCS, (False, True), ("identical", "src-only", "dst-only")):
         yield ((name,), pd_, base_opts(strategy="always", doc_sync=ds, check_schema=cs), "sync_projects")
-    pairs = list(itertools.permutations(MULTI[:5] if tier == "quick" else MULTI, 2))
+    pairs = list(itertools.permutations(MULTI[:6] if tier == "quick" else MULTI, 2))
     for (a, b) in pairs:
         for sel in (None, {"form": "ids", "indices": [0]}, {"form": "ids", "indices": [1]}, {"form": "jobs", "indices": [0]},
                     {"form": "ids", "indices": [0, 1]}, {"form": "ids", "indices": []}):
@@ -600,6 +656,7 @@ def base_cases(tier):
         for tri in itertools.permutations(MULTI[:6], 3):
             for st, ds in (("always", "update"), ("never", "bykey-regex")):
                 yield (tri, "disjoint", base_opts(strategy=st, doc_sync=ds, recursive=True), "Project.sync")
+    yield from prior_cases(tier)
 
 
 def deep_cases(tier):
